@@ -50,6 +50,28 @@ CHECKS = {
             "For every document and grid point the set of (line, rule) pairs reported must match the documented condition: no missed occurrence, no report where the condition is false; abstentions where a page is silent are explicit per predicate.", "3 C06"),
 }
 NOT_YET = {}
+NOTES = {
+    "C01": "Trusted: CPython's sys.monitoring event counts as the work measure; bounds: B(core,3)+B(core19,4)+B(wide,2)+mli/mli2+Iw(3)+E(7)+Br(5) quick, one level deeper thorough; polynomial claim only measured on pumped families up to n=64/128.",
+    "C02": "Trusted: the identity oracle (string equality); documents that fail to parse are C01's and skipped.",
+    "C03": "Trusted: vendored markdown-it-py 4.0.0 with one local patch (vendor/PATCHES.md) as the CommonMark reference; three documented exclusions where the reference or the two specification versions disagree with the specification text.",
+    "C04": "Trusted: the ~80-line stack automaton in vf/checks/c04.py (kind table written in the harness); blank-line tokens inside HTML blocks are accepted as content.",
+    "C05": "Trusted: the opener table in vf/checks/c05.py; columns accepted on the raw or the tab-expanded line.",
+    "C06": "Trusted: 24 reference predicates in vf/oracles/rules_ref.py written from the rule documentation, evaluated on markdown-it's tokens; explicit abstentions where a page is silent; only documents on which C03's comparison passes.",
+    "C07": "Trusted: output parsing in vf/app.py; lines as text.split('\\n'); hash-seed repeatability on four rich documents in fresh processes.",
+    "C08": "Trusted: markdown-it-py as the independent renderer and the fingerprint in vf/oracles/fingerprint.py (what it erases is listed there).",
+    "C09": "Trusted: pruning of rule subsets in which no rule fires rests on 'no fixable failure => fix is the identity', itself checked for the default set everywhere and for all subsets on one-line documents.",
+    "C10": "Trusted: SHA-256 snapshots of the sandbox (cwd + TMPDIR) before/after every run.",
+    "C11": "Trusted: the 15-line reading of pragmas.md in vf/checks/c11.py (named rules x exactly the covered lines).",
+    "C12": "Trusted: multiset union over single-rule runs; deep documents use a pruned configuration set (rules silent under 'all' and 'default' are not re-run alone).",
+    "C13": "Trusted: equal canonical dumps of all rule instances imply equal futures (state closure); differential against the file alone needs no expected values.",
+    "C14": "Trusted: the life-cycle grammar (S+ T* L* C)* per pass and exact expectation in scan mode, from docs/developer.md.",
+    "C15": "Trusted: I/O interposition in vf/crashpoints.py (page cache = disk; torn writes inside one write() not modelled); TLA+ model models/WriteBack.tla bound to the code by trace validation.",
+    "C16": "Trusted: tuple extraction from CLI output vs API objects; whitespace-only documents not compared.",
+    "C17": "Trusted: the precedence model transcribed from advanced_configuration.md; out-of-range samples limited to values invalid under any reading.",
+    "C18": "Trusted: the exit-code table transcribed from user-guide.md; categories derived from constructed scenarios and measured observables.",
+    "C19": "Trusted: the selection model in vf/checks/c19.py (component-wise non-recursive glob, case-sensitive extensions).",
+    "C20": "Trusted: the syntactic 'needed' predicate per extension (over-approximation) and the disabled-extension trace invariants.",
+}
 
 
 def main():
@@ -69,9 +91,7 @@ def main():
                     "replay_cmd_template": f"/venv/bin/python -m vf.run {pid} --replay {{path}}",
                     "engine": "vf",
                     "level_claimed": {"category": "fault_enumeration" if pid == "C15X" else "model_checking", "text": text, "design_ref": f"DESIGN.md section {ref}"},
-                    "level_note": "Trusted: CPython, the harness oracle for this property (vf/checks, vf/oracles), "
-                    "the vendored markdown-it-py where used; bounds and alphabets as printed in the evidence file; "
-                    "genuine defects of the pinned tree are listed in findings/ by exact minimal input.",
+                    "level_note": NOTES.get(pid, "") + " Bounds and alphabets as printed in the evidence file; genuine defects of the pinned tree are listed in findings/ by exact minimal input (KNOWN-FINDING lines).",
                     "technique": tech,
                 }
             )
